@@ -73,10 +73,20 @@ Multi2(gs, p) ==
   /\ c' = [k |-> "multi2", gs |-> gs, p |-> p]
   /\ m' = [i \in 1..Len(gs) |-> Hom(ScrewM(<< gs[i][1], 0, 0, gs[i][2] >>, p, 0, 1))]
 
+\* a PRISMATIC unit twist (direction d of integer length len) exponentiated with theta = n len: the translation n d.
+\* theta is a distance here (several multiples of pi are passed through unharmed)
+UnitTrans(d, len, n) ==
+  /\ c.k = "none"
+  /\ Dot(d, d) = len * len
+  /\ c' = [k |-> "unittrans", d |-> d, len |-> len, n |-> n]
+  /\ m' = Hom(Trans(Scale3(n, d), 1))
+PythDirs == { << <<3,4,0>>, 5 >>, << <<0,0,2>>, 2 >>, << <<2,-1,2>>, 3 >>, << <<-4,3,0>>, 5 >>, << <<1,0,0>>, 1 >> }
+
 QSeqs == { <<a, b>> : a \in QM, b \in QM } \cup { <<a, b, cc>> : a \in QM, b \in QM, cc \in QM }
 GSeqs == { <<a, b>> : a \in GM, b \in GM } \cup { <<a, b, cc>> : a \in GM, b \in GM, cc \in GM }
 
 Next ==
+  \/ \E dl \in PythDirs : \E n \in KS \cup {1, 7} : UnitTrans(dl[1], dl[2], n)
   \/ \E qs \in QSeqs : \E p \in PM : \E a \in AS : Multi3(qs, p, a)
   \/ \E gs \in GSeqs : \E p \in PM : Multi2(gs, p)
   \/ \E q \in QU : \E p \in PS : \E n \in KS : UnitExp3(q, p, n)
